@@ -373,7 +373,10 @@ impl<T: Read + Seek> Iterator for PointCloudReaderSimple<'_, T> {
         }
 
         // Read raw point values as simple point, add to buffer
-        let available = self.queue_reader.available();
+        // (the last packet can hold more values than the point cloud has points)
+        let remaining = self.pc.records - self.read;
+        let remaining = usize::try_from(remaining).unwrap_or(usize::MAX);
+        let available = self.queue_reader.available().min(remaining);
         self.buffer.reserve(available);
         for _ in 0..available {
             let p = match self.pop_point() {
